@@ -3,7 +3,7 @@ R-NOALLOC / R-AMORTISED."""
 from core import Ctx, callee_tag, classify, closure_sites, base_places, describe, short, fnitem_of_operand
 from model import (Catalogue, constructed, self_field_targets, is_storage_type, is_phantom,
                    SIZED_CTORS, EMPTY_CTORS)
-from expr import trees, tree, show, operand_tree
+from expr import trees, tree, show, operand_tree, reach_strict
 from r_index import places_in
 from r_cmp import calls_in
 
@@ -337,7 +337,72 @@ def r_reserve_no_truncation(F, R, cat=None):
                         where="%s:%s" % (ctx.body.file, t["line"]),
                         detail="a truncating/skipping adaptor on the announced items: fewer items are announced "
                                "to the child storage than the matching pushes will store")
+            # an iterator that was stepped by hand (`it.next()`) and is then handed to a child
+            # announces one item fewer per step
+            probes = []
+            for (bi, t) in ctx.body.calls():
+                tag = callee_tag(t.get("callee"))
+                if tag[1] in ("next", "next_back", "advance_by") and t["args"] and t["args"][0]["k"] != "const":
+                    probes.append((bi, t, {r for (r, p) in ctx.org.operand(t["args"][0])}))
+            for (bi, t) in ctx.body.calls():
+                tag = callee_tag(t.get("callee"))
+                if tag[1] not in ("reserve_items", "reserve_regions") or len(t["args"]) < 2 or t["args"][1]["k"] == "const":
+                    continue
+                handed = {r for (r, p) in ctx.org.operand(t["args"][1])}
+                for (pb, pt, roots) in probes:
+                    if not (roots & handed) or not (pb == bi or bi in reach_strict(ctx.body, pb)):
+                        continue
+                    from_items = any(c2.body is b and r == ("arg", 2)
+                                     for o in ctx.org.operand(t["args"][1]) for (c2, (r, p)) in base_places(ctx, o)) or \
+                        any(nd[0] == "place" and nd[1] == b.key and nd[2] == ("arg", 2) for nd in walk(operand_tree(ctx, t["args"][1])))
+                    if not from_items:
+                        continue
+                    R.saw(b)
+                    R.check("R-RESERVE-ITEMS", b.label(), False,
+                            construct="the announced items reach the child un-stepped",
+                            where="%s:%s" % (ctx.body.file, t["line"]),
+                            detail="the iterator handed to %s::%s was advanced by %s (line %s) before: the child is told "
+                                   "about fewer items than will be pushed" % (tag[0], tag[1], callee_tag(pt.get("callee"))[1], pt["line"]))
     R.floor("R-RESERVE-ITEMS", "reserve_items / reserve_regions bodies scanned for truncating adaptors", n, 10)
+
+
+def r_reserve_cumulative(F, R, cat=None):
+    """`reserve(n)` guarantees room for n more elements than the *current length*, so calling it
+    once per source in a loop on the same storage leaves room for the largest source, not for the
+    sum.  Fires on a reserve-class call inside a loop of a reserve_regions / reserve_items body
+    whose receiver does not change with the loop and whose amount comes from the loop's element."""
+    from core import all_ctxs
+    from expr import in_loop
+    n = 0
+    hits = 0
+    for b in list(F.methods_of_trait("ReserveItems", "reserve_items")) + list(F.methods_of_trait("Region", "reserve_regions")) + \
+            list(F.methods_of_trait("Storage", "reserve_regions")) + list(F.methods_of_trait("Storage", "reserve_items")):
+        if b.in_tests():
+            continue
+        n += 1
+        for ctx in all_ctxs(F, b):
+            if ctx.body.kind == "Closure":
+                continue
+            for (bi, t) in ctx.body.calls():
+                if classify(t.get("callee")) != "reserve" or len(t["args"]) < 2 or not in_loop(ctx.body, bi):
+                    continue
+                recv = operand_tree(ctx, t["args"][0])
+                amount = operand_tree(ctx, t["args"][1])
+                if recv[0] != "place" or recv[2][0] != "arg" or "[]" in recv[3]:
+                    continue
+                steps = [nd for nd in walk(amount) if nd[0] == "call" and nd[1][1] == "next" and in_loop(ctx.body, nd[4])]
+                if not steps:
+                    continue
+                hits += 1
+                R.saw(b)
+                R.check("R-COVER(reserve_regions)", b.label(), False,
+                        construct="room for all sources together",
+                        where="%s:%s" % (ctx.body.file, t["line"]),
+                        detail="%s is reserved once per source inside a loop with that source's own size %s: reserve is "
+                               "relative to the current length, so the calls do not add up and the storage is left "
+                               "with room for the largest source only" % (show(recv), show(amount)[:80]))
+    R.info("R-COVER(reserve_regions): %d reserve bodies scanned for per-source reserves in a loop, %d found" % (n, hits))
+    R.floor("R-COVER(reserve_regions)", "reserve bodies scanned for per-source reserves", n, 10)
 
 
 def r_reserve_hint_lower(F, R, cat=None):
@@ -408,6 +473,43 @@ def r_reserve_additional(F, R, cat=None):
                                "total a second time and reallocates a storage that was sized exactly" % (
                                    show(amount)[:80], show(bad)[:50]))
     R.info("R-RESERVE-ITEMS: %d reserve calls inspected for amounts that include the receiver's length" % n)
+
+
+def r_capacity_uncapped(F, R, cat=None):
+    """The pre-sizing entry points (`with_capacity`, `reserve*`, `merge_regions`, `merge_capacity`)
+    hand the requested amount to the allocation call as computed: an amount that is capped
+    (`capacity.min(limit)`, `clamp`) leaves a storage smaller than announced, and pushing the
+    announced contents reallocates.  Fires only on a cap applied to an amount that derives from
+    a parameter."""
+    from core import all_ctxs
+    from expr import nobb
+    names = ("with_capacity", "reserve", "reserve_items", "reserve_regions", "merge_regions", "merge_capacity")
+    n = 0
+    for top in F.bodies.values():
+        if top.in_tests() or top.derived or top.kind == "Closure" or top.name not in names:
+            continue
+        for ctx in all_ctxs(F, top):
+            for (bi, t) in ctx.body.calls():
+                tag = callee_tag(t.get("callee"))
+                sized = tag in SIZED_CTORS or tag[1] == "with_capacity"
+                if not (classify(t.get("callee")) == "reserve" or sized) or not t["args"]:
+                    continue
+                amt_op = t["args"][0] if sized and len(t["args"]) == 1 else (t["args"][1] if len(t["args"]) >= 2 else None)
+                if amt_op is None or amt_op["k"] == "const":
+                    continue
+                amount = nobb(trees(ctx, ctx.org.operand(amt_op)))
+                n += 1
+                caps = [nd for nd in walk(amount) if nd[0] == "call" and nd[1][1] in ("min", "clamp") and
+                        any(x[0] == "place" and x[2][0] == "arg" for a in nd[2] for x in walk(a))]
+                if not caps:
+                    continue
+                R.saw(top)
+                R.check("R-COVER(merge_regions)", top.label(), False, construct="the requested capacity is passed on uncapped",
+                        where="%s:%s" % (ctx.body.file, t["line"]),
+                        detail="the amount %s is capped: a request above the cap leaves the storage smaller than "
+                               "announced, so copying exactly the announced contents reallocates" % show(amount)[:100])
+    R.info("R-COVER: %d allocation amounts in pre-sizing entry points inspected for caps" % n)
+    R.floor("R-COVER(merge_regions)", "allocation amounts in pre-sizing entry points", n, 10)
 
 
 def r_reserve_items_agree(F, R, cat=None):
